@@ -35,7 +35,12 @@ def make_cfg(rs, tier):
         # another file); results must agree - also for rejected / partially applied operations, whose outcome the
         # reference model does not define
         cfg.update(twin=True, nres=1, capmode="huge", forced_flush_possible=False)
-    elif r < 0.35:
+    elif r < 0.24:
+        # WEAK-CHECKSUM configuration: the buffered edits keep the length of the encoded document and are arranged to
+        # collide under simple checksums (byte sum: a permutation; Adler/Fletcher-style weighted sums: +1,-2,+1 on equally
+        # spaced digits; XOR: two equal changes).  "Nothing changed" must be decided on the content, whatever the digest.
+        cfg.update(weak=rs.choice(["perm", "adler", "xor"]), nres=1, capmode="huge", forced_flush_possible=False)
+    elif r < 0.39:
         # BIG-CAPACITY configuration: the class capacity is tiny, every outermost backend context asks for a huge one,
         # plain contexts nest inside it; nothing may be written before the outermost exit
         cfg.update(capmode="bigcap", forced_flush_possible=False)
@@ -54,6 +59,24 @@ def setup(w, rg):
         yield {"t": "new_obj", "rid": 0, "wc": cfg["wc"]}
         yield {"t": "new_obj", "rid": 1, "wc": cfg["wc"]}
         return
+    if cfg.get("weak"):
+        kind = cfg["kinds"][0]
+        pat = {"perm": ([4, 5, 6], [6, 4, 5]), "adler": ([4, 6, 4], [5, 4, 5]), "xor": ([4, 4, 7], [6, 6, 7])}[cfg["weak"]]
+        keys = ["a", "b", "c"]
+        init = list(pat[0]) if kind == "list" else dict(zip(keys, pat[0]))
+        yield {"t": "new_res", "family": cfg["family"], "kind": kind, "init": init}
+        yield {"t": "new_obj", "rid": 0, "wc": cfg["wc"]}
+        w._script = [{"t": "enter", "ctx": "obj", "oid": 0} if rg.random() < 0.5 else {"t": "enter", "ctx": "backend", "family": cfg["family"], "kind": kind}]
+        if rg.random() < 0.5:
+            w._script.append({"t": "op", "hid": 0, "name": "len", "args": []})
+        order = [0, 1, 2]
+        rg.shuffle(order)
+        for j in order:
+            if pat[0][j] != pat[1][j]:
+                w._script.append({"t": "op", "hid": 0, "name": "setitem", "args": [j if kind == "list" else keys[j], pat[1][j]]})
+        w._script.append({"t": "exit"})
+        w.probe("weak_checksum_scenario")
+        return
     yield from _buf.setup(w, rg)
     if cfg["capmode"] == "bigcap":
         for k in sorted(set(cfg["kinds"][:cfg["nres"]])):
@@ -65,6 +88,8 @@ BIG = 10 ** 9
 
 def gen_step(w, rg):
     cfg = w.cfg
+    if getattr(w, "_script", None):
+        return w._script.pop(0)
     if cfg.get("twin"):
         return gen_twin_step(w, rg)
     if cfg["capmode"] != "bigcap":
